@@ -32,11 +32,12 @@ var importSubst = map[string]string{
 	"sync":    "verif/gosim/vsync",
 	"context": "verif/gosim/vctx",
 	"time":    "verif/gosim/vtime",
+	// every atomic operation becomes a visible step of the scheduler
+	"sync/atomic": "verif/gosim/vatomic",
 }
 
 var forbiddenImports = map[string]string{
-	"sync/atomic": "sync/atomic on shared state is not modelled",
-	"os/signal":   "signals are not modelled",
+	"os/signal": "signals are not modelled",
 }
 
 // Result of rewriting.
@@ -80,7 +81,7 @@ func Run(dir string, tags string, patterns []string, outDir string) (*Result, er
 	for _, p := range pkgs {
 		rewritten[p.PkgPath] = true
 	}
-	for _, p := range []string{rtPath, vctxPath, "verif/gosim/vsync", "verif/gosim/vtime", "sync", "context", "time"} {
+	for _, p := range []string{rtPath, vctxPath, "verif/gosim/vsync", "verif/gosim/vtime", "verif/gosim/vatomic", "sync", "sync/atomic", "context", "time"} {
 		rewritten[p] = true
 	}
 	res := &Result{Overlay: map[string]string{}}
